@@ -331,6 +331,7 @@ var Mutants = map[string][]Mutant{
 		{"rasterizer ignores the fill rule", "renderers/rasterizer/rasterizer.go", `\t\tr\.scanner\.SetWinding\(style\.FillRule != canvas\.EvenOdd\)\n`, ``, "E6.style-field"},
 	},
 	"C15": {
+		{"checkDash gets the dashes in stroke widths", "canvas.go", `dashes, ok := path\.checkDash\(dashOffset, dashes\)`, "dashes, ok := path.checkDash(c.Style.DashOffset, style.Dashes)\n\t\t_ = dashOffset", "E11.dash-check-units"},
 		{"Fit restarts the hull with every z-index", "canvas.go", `(?s)(\tfor _, layers := range c\.layers \{\n)(\t\tfor _, l := range layers \{.*?)\t\t\t\tif rect\.Empty\(\) \{\n\t\t\t\t\trect = bounds\n`, "${1}\t\tfirst := true\n${2}\t\t\t\tif first {\n\t\t\t\t\tfirst = false\n\t\t\t\t\trect = bounds\n", "E11.accumulator-restart"},
 		{"Fit takes the image extent from the rectangle's corners", "canvas.go", `size := l\.img\.Bounds\(\)\.Size\(\)\n(\t+)bounds = Rect\{0\.0, 0\.0, float64\(size\.X\), float64\(size\.Y\)\}`, "b := l.img.Bounds()\n${1}bounds = Rect{float64(b.Min.X), float64(b.Min.Y), float64(b.Max.X), float64(b.Max.Y)}", "E11.image-extent-from-size"},
 		{"Context.Translate adds to the translation column of the view", "canvas.go", `(func \(c \*Context\) Translate\(x, y float64\) \{\n)\tc\.view = c\.view\.Mul\(Identity\.Translate\(x, y\)\)`, "${1}\tc.view[0][2] += x\n\tc.view[1][2] += y", "E11.view-postmul"},
